@@ -18,7 +18,7 @@ RecOk(r) == ~Rendered(r) \/ Ok(r.ctx, r.s, r.out)
 \* a pair, and the variant with the a..f range would decode back.  Any other failure carries the
 \* input itself, so that it is reported separately.
 Sig(r) ==
-  IF r.ctx \in CssCtx /\ HexAfterEsc(r.s) /\ r.out = CssStringEscape(r.s, 98) /\ Ok(r.ctx, r.s, CssStringEscape(r.s, 102))
+  IF r.ctx \in CssCtx /\ HexAfterEsc(r.s) /\ r.out = Model(r.ctx, r.s, 98) /\ Ok(r.ctx, r.s, Model(r.ctx, r.s, 102))
   THEN [fam |-> "escapers", ctx |-> r.ctx, cause |-> "css-hex-letter-after-escape", s |-> <<>>]
   ELSE [fam |-> "escapers", ctx |-> r.ctx, cause |-> "roundtrip", s |-> r.s]
 
